@@ -88,6 +88,10 @@ FAMILIES = {
               ("Gen_Genesis", "Gen_Genesis.cfg", "bfs", {"quick": dict(depth=1, consts={}), "thorough": dict(depth=1, consts={})}),
               ("Gen_Pass", "Gen_Pass.cfg", "bfs", {"quick": dict(depth=1, consts={}), "thorough": dict(depth=1, consts={})})],
         replays=[dict(mode="app", controls="", swap=False, extra=["-digests"], repeat={"quick": 2, "thorough": 4})]),
+    "DUST": dict(
+        mc=("MC_Dust", "MC_Dust.cfg", {"quick": {"MaxDepth": "3"}, "thorough": {"MaxDepth": "4"}}),
+        gens=[("Gen_Dust", "Gen_Dust.cfg", "bfs", {"quick": dict(depth=3, consts={}), "thorough": dict(depth=4, consts={})})],
+        replays=[dict(mode="app", controls="clean,nopt,nopause", swap=False)]),
     "FEES": dict(
         mc=("MC_Fees", "MC_Fees.cfg", {"quick": {"FeeSet": '"small"'}, "thorough": {"FeeSet": '"full"'}}),
         shards={"quick": [{"Amounts": "{%d}" % a} for a in (1, 3, 10000, 10001, 199999)],
@@ -103,7 +107,7 @@ PROPS = {
                 rule="a step is non-trivial for C01 when it is a packet reception; distinct = distinct (abstract pre-state, abstract input)"),
     "C02": dict(families=["FUNDS"], groups=["bal", "supply"], level="model_checking",
                 rule="non-trivial = a successful orbiter transfer (success acknowledgement); distinct = distinct (abstract pre-state, abstract input)"),
-    "C11": dict(families=["FUNDS"], groups=["ack", "bal", "stats"], level="model_checking",
+    "C11": dict(families=["DUST", "FUNDS"], groups=["ack", "bal", "stats"], level="model_checking",
                 rule="non-trivial = an orbiter packet received while the orbiter account holds coins, with the paired control run on the emptied account executed; distinct = distinct (pre-state, input)"),
     "C12": dict(families=["FUNDS", "STATS", "ORDER"], groups=["stats"], level="model_checking",
                 rule="non-trivial = a successful orbiter transfer (statistics must change by exactly that transfer); all other steps are checked for 'unchanged'; distinct = distinct (pre-state, input)"),
@@ -137,7 +141,7 @@ PROPS = {
                 rule="non-trivial = a transfer with a parseable payload received while some action is paused, or a pause/unpause-action message; distinct = distinct (pre-state, input)"),
     "C10": dict(families=["PAUSE"], groups=["ack", "pause", "params", "stats", "bal"], level="model_checking",
                 rule="non-trivial = any authority message (every RPC x signer class x body class); distinct = distinct (pre-state, input)"),
-    "C18": dict(families=["PAUSE"], groups=["ack", "params"], level="model_checking",
+    "C18": dict(families=["PAUSE", "DUST"], groups=["ack", "params"], level="model_checking",
                 rule="non-trivial = a transfer with a non-empty passthrough payload, or an UpdateParams message; distinct = distinct (pre-state, input)"),
 }
 
